@@ -6,6 +6,7 @@ import Driver.Common
 ops (macro ops executed by `harness/hcore/src/bin/timers.rs` at quiescent points):
   `case <n>`                      fresh runtime, fresh target; clock 0
   `sa <p>` `si <p>` `ea <p>` `ka <p>`   send_after / send_interval / exit_after / kill_after, period p µs
+  `dsa <p>` `dsi <p>` `dea <p>` `dka <p>`   the same four through a `DerivedActorRef` (same model steps)
   `adv <d>`                       tokio::time::advance(d µs), run to quiescence   (every time and duration is in µs)
   `advabort <d> <i>`              clock += d, abort timer i before the time driver runs
   `advstop <d>` `advkill <d>` `advdrain <d>`   clock += d, then the API call on the target
@@ -73,6 +74,9 @@ def parseMOp? (ws : List String) : Option MOp :=
   | ["dsi", p] => p.toNat?.map (MOp.create .interval)
   | ["ea", p] => p.toNat?.map (MOp.create .exitAfter)
   | ["ka", p] => p.toNat?.map (MOp.create .killAfter)
+  -- `DerivedActorRef::exit_after / kill_after`: must behave exactly like the two above
+  | ["dea", p] => p.toNat?.map (MOp.create .exitAfter)
+  | ["dka", p] => p.toNat?.map (MOp.create .killAfter)
   | ["adv", d] => d.toNat?.map MOp.adv
   | ["advabort", d, i] => do pure (MOp.advAbort (← d.toNat?) (← i.toNat?))
   | ["advstop", d] => d.toNat?.map MOp.advStop
